@@ -184,35 +184,53 @@ func (w *world) makeBlock(parent *types.Block, specs []txSpec, bits uint32) (*ty
 			}
 			tx.Sign(types.SECP256K1, keys[1])
 			insert = append(insert, tx)
+			exec = append(exec, tx)
 			invalid = true
 		case "expiredTime":
 			tx := w.freshTx(s.To)
 			tx.Expire = parent.BlockTime - int64(s.Ref%100) // unix time not after the block time
 			tx.Sign(types.SECP256K1, keys[1])
 			insert = append(insert, tx)
+			exec = append(exec, tx)
 			invalid = true
 		case "wrongChain":
 			tx := w.freshTx(s.To)
 			tx.ChainID = cfg.GetChainID() + 1
 			tx.Sign(types.SECP256K1, keys[1])
 			insert = append(insert, tx)
+			exec = append(exec, tx)
 			invalid = true
 		case "lowFee":
 			tx := w.freshTx(s.To)
 			tx.Fee = int64(s.Ref % 1000)
 			tx.Sign(types.SECP256K1, keys[1])
 			insert = append(insert, tx)
+			exec = append(exec, tx)
 			invalid = true
 		case "txHeightOut":
 			tx := w.freshTx(s.To)
 			tx.Expire = 1<<62 + height + 201 + int64(s.Ref%500) // window starts above this height
 			tx.Sign(types.SECP256K1, keys[1])
 			insert = append(insert, tx)
+			exec = append(exec, tx)
 			invalid = true
 		}
 		kinds = append(kinds, s.Kind)
 	}
-	if len(exec) == 0 {
+	keepable := 0
+	for _, tx := range exec {
+		own := false
+		for _, ins := range insert {
+			if ins == tx {
+				own = true
+			}
+		}
+		if !own {
+			keepable++
+		}
+	}
+	if keepable == 0 {
+		// at least one transaction the executor will keep, otherwise the producer cannot build a block at all
 		exec = append(exec, w.freshTx(0))
 		kinds = append(kinds, "fresh")
 	}
@@ -233,14 +251,27 @@ func (w *world) makeBlock(parent *types.Block, specs []txSpec, bits uint32) (*ty
 		lib.Inconclusive("builder: %v", err)
 	}
 	if len(insert) > 0 {
+		// The producer first offers these transactions to its own executor (above): a verifier whose checks are
+		// broken would execute them, and then the state root must account for them. Whatever the executor dropped
+		// is put back into the body afterwards, so that an intact verifier meets it and must reject the block.
+		kept := map[string]bool{}
+		for _, tx := range blk.Txs {
+			kept[string(tx.FullHash())] = true
+		}
+		changed := false
 		for _, tx := range insert {
 			if tx == nil {
 				tx = cloneTx(blk.Txs[0])
+			} else if kept[string(tx.FullHash())] {
+				continue
 			}
 			blk.Txs = append(blk.Txs, tx)
+			changed = true
 		}
-		blk.Txs = types.TransactionSort(blk.Txs)
-		blk.TxHash = merkle.CalcMerkleRoot(cfg, blk.Height, blk.Txs)
+		if changed {
+			blk.Txs = types.TransactionSort(blk.Txs)
+			blk.TxHash = merkle.CalcMerkleRoot(cfg, blk.Height, blk.Txs)
+		}
 	}
 	return blk, invalid, kinds
 }
